@@ -656,3 +656,118 @@ Theorem gen_copy_obj_example :
   /\ map om_dict (o_mats (fst (py_CharacterMatrix___copy__ os 0))) = [0; 1].
 Proof. exact gen_copy_obj_example_l. Qed.
 Print Assumptions gen_copy_obj_example.
+
+(* ================= wave 8: refused calls; first matching member ================= *)
+(* Model/C11W8Model.v: op8 = Op7 (every operation above) | BadKw o (the call o with one more keyword the API
+   does not know, unify_taxa_by_labels=True: TypeError where Python / Tree.migrate_taxon_namespace sees it -
+   always for the closed signatures, for TreeList.append / insert only on the 'migrate' branch of a tree under
+   another namespace -, the plain call where the keyword is never looked at). *)
+From DV Require Import Model.C11W8Model Proofs.C11W8 Proofs.C11W8First Proofs.C11W8Examples.
+
+Theorem closed_step8 : forall (lower : lbl -> lbl) (x : xstate) (o : op8),
+  Closed (x_st x) -> disciplined8 x o = true -> snd (step8 lower x o) <> ORecon ->
+  Closed (x_st (fst (step8 lower x o))).
+Proof. exact closed_step8_l. Qed.
+Print Assumptions closed_step8.
+
+Theorem closed_reachable8 : forall (lower : lbl -> lbl) (ops : list op8),
+  hist_ok8 lower x_init ops = true -> Closed (x_st (run_state8 lower x_init ops)).
+Proof. exact closed_reachable8_l. Qed.
+Print Assumptions closed_reachable8.
+
+Theorem op7_step8 : forall (lower : lbl -> lbl) (x : xstate) (o : op7), step8 lower x (Op7 o) = step7 lower x o.
+Proof. exact op7_step8_l. Qed.
+Print Assumptions op7_step8.
+
+(* A refused operation changes nothing (seeded change C11-9 breaks exactly this for append / insert): when a call
+   of the class - any call with the unknown keyword; append / insert with or without a memo (unknown
+   taxon_import_strategy); new_tree with a foreign taxon_namespace; pop / remove; TreeArray.add_tree of a tree
+   under another namespace; new_sequence / []= on a matrix; DataSet.new_tree_list / new_char_matrix with a
+   namespace that is not the attached one - ends in an exception, the WHOLE state (every namespace, tree, list,
+   matrix, data set, the taxon registry, every memo object) is what it was before the call. *)
+Theorem refused_changes_nothing : forall (lower : lbl -> lbl) (x : xstate) (o : op8),
+  refusal_class o = true -> is_err (snd (step8 lower x o)) = true -> fst (step8 lower x o) = x.
+Proof. exact refused_changes_nothing_l. Qed.
+Print Assumptions refused_changes_nothing.
+
+(* the unknown keyword IS refused on the migrate branch: list.append(tree under another namespace,
+   unify_taxa_by_labels=True) raises TypeError and nothing has changed (so the corrected call that follows is a
+   first call) *)
+Theorem badkw_append_refused : forall (lower : lbl -> lbl) (x : xstate) (l tr : oid) (u : bool),
+  valid_list (x_st x) l = true -> valid_tree (x_st x) tr = true ->
+  t_ns (gettree (x_st x) tr) <> l_ns (getlist (x_st x) l) ->
+  step8 lower x (BadKw (Base (Append l tr (SMigrate u)))) = (x, OErr TypeErr).
+Proof. exact badkw_append_refused_l. Qed.
+Print Assumptions badkw_append_refused.
+
+(* either the plain call, or nothing at all *)
+Theorem badkw_plain_or_nothing : forall (lower : lbl -> lbl) (x : xstate) (o : op7),
+  step8 lower x (BadKw o) = step7 lower x o
+  \/ (fst (step8 lower x (BadKw o)) = x
+      /\ (snd (step8 lower x (BadKw o)) = OBadArg \/ snd (step8 lower x (BadKw o)) = OErr TypeErr)).
+Proof. exact step8_badkw_cases. Qed.
+Print Assumptions badkw_plain_or_nothing.
+
+(* non-vacuity: the four fixed wave-8 histories (replayed on the library on every run) keep to the discipline,
+   9 resp. 11 of their steps are refused calls, and after history 0 namespace 0 holds six taxa (labels twice) *)
+Theorem hist_ok8_example :
+  hist_ok8 w8_lower x_init w8_history0 = true /\ hist_ok8 w8_lower x_init w8_history1 = true
+  /\ hist_ok8 w8_lower x_init w8_history2 = true /\ hist_ok8 w8_lower x_init w8_history3 = true
+  /\ n_refused w8_history2 = 9 /\ n_refused w8_history3 = 11
+  /\ length (members (x_st (run_state8 w8_lower x_init w8_history0)) 0) = 6.
+Proof. exact w8_hist_ok_l. Qed.
+Print Assumptions hist_ok8_example.
+
+Theorem refused_example :
+  let x := run_state8 w8_lower x_init (firstn 16 w8_history2) in
+  let o := Op7 (Base (Append 0 1 SBogus)) in
+  refusal_class o = true /\ is_err (snd (step8 w8_lower x o)) = true /\ nth_error w8_history2 16 = Some o.
+Proof. exact w8_refused_example_l. Qed.
+Print Assumptions refused_example.
+
+Theorem badkw_example :
+  let x := run_state8 w8_lower x_init (firstn 18 w8_history2) in
+  valid_list (x_st x) 0 = true /\ valid_tree (x_st x) 2 = true
+  /\ t_ns (gettree (x_st x) 2) = 2 /\ l_ns (getlist (x_st x) 0) = 0
+  /\ nth_error w8_history2 18 = Some (BadKw (Base (Insert 0 0%Z 2 (SMigrate true)))).
+Proof. exact w8_badkw_example_l. Qed.
+Print Assumptions badkw_example.
+
+(* ---- every import route resolves a label to the FIRST matching member (seeded change C11-10 makes the clone
+   route take the last one; the translated Tree._clone_from is tied to clone_memo by gen_Tree__clone_from) ----
+   clone route: Tree(t0, taxon_namespace=n) maps every member x of the source namespace (ms) to
+   n.require_taxon(x.label); in the namespace as it is after the call that is the first member matching x's label *)
+Theorem clone_resolves_first_match : forall (lower : lbl -> lbl) (st : state) (n : oid) (ms : list oid)
+    (st' : state) (memo : list (oid * oid)),
+  (forall x, In x (members st n) -> x < length (s_lab st)) ->
+  (forall x, In x ms -> x < length (s_lab st)) ->
+  clone_memo lower st n ms [] = (st', memo) ->
+  forall x t, alookup x memo = Some t -> first_match lower st' n (ns_cs st' n) (label st' x) = Some t.
+Proof. exact clone_resolves_first_match_l. Qed.
+Print Assumptions clone_resolves_first_match.
+
+(* migrate route: Tree.reconstruct_taxon_namespace(unify_taxa_by_label=True) over the node taxa refs: node i ends
+   on the first member matching the label of the taxon it carried *)
+Theorem migrate_resolves_first_match : forall (lower : lbl -> lbl) (st : state) (n : oid) (refs : list oid)
+    (st' : state) (refs' : list oid) (memo' : list (oid * oid)),
+  (forall x, In x (members st n) -> x < length (s_lab st)) ->
+  (forall x, In x refs -> x < length (s_lab st)) ->
+  recon_refs lower st n true refs [] = (st', refs', memo') ->
+  length refs' = length refs
+  /\ forall i, i < length refs ->
+       first_match lower st' n (ns_cs st' n) (label st' (nth i refs 0)) = Some (nth i refs' 0).
+Proof. exact migrate_resolves_first_match_l. Qed.
+Print Assumptions migrate_resolves_first_match.
+
+(* non-vacuity, and the route that does NOT: in the state after the two ADDs of history 0 (namespace 0 = A B a C A a,
+   case-insensitive) both routes put the label a on taxon 0, the readers' symbol table (read_refs) on taxon 5 *)
+Theorem first_match_example :
+  members w8_dup_state 0 = [0; 1; 2; 3; 4; 5] /\ members w8_dup_state 3 = [6; 7; 8]
+  /\ map (label w8_dup_state) [0; 1; 2; 3; 4; 5; 6; 7; 8] = [0; 1; 3; 2; 0; 3; 3; 2; 1]
+  /\ forallb (fun x => Nat.ltb x (length (s_lab w8_dup_state))) (members w8_dup_state 0 ++ members w8_dup_state 3) = true
+  /\ snd (clone_memo w8_lower w8_dup_state 0 (members w8_dup_state 3) []) = [(8, 1); (7, 3); (6, 0)]
+  /\ snd (fst (recon_refs w8_lower w8_dup_state 0 true [7; 6; 8; 7] [])) = [3; 0; 1; 3]
+  /\ first_match w8_lower w8_dup_state 0 false 3 = Some 0
+  /\ snd (fst (read_refs w8_lower w8_dup_state 0 false [3] [])) = [5].
+Proof. exact w8_first_match_example_l. Qed.
+Print Assumptions first_match_example.
